@@ -1034,3 +1034,101 @@ def expr_str(e, depth=0):
     if k == "discr":
         return "discr(%s)" % expr_str(e[1], depth + 1)
     return str(e)
+
+
+class PathExpr(Expr):
+    """Expr whose locals are resolved in a path-specific environment first (see `paths`)."""
+
+    def __init__(self, prog, path, **kw):
+        Expr.__init__(self, prog, path, **kw)
+        self.env = {}
+
+    def local(self, l, fields=(), depth=0):
+        if l in self.env:
+            return self._select(self.env[l], tuple(fields))
+        if 1 <= l <= self.argc:
+            return ("param", l, tuple(fields))
+        return ("unknown", "undefined on this path: _%d" % l)
+
+
+def paths(prog, path, max_paths=128):
+    """Path-sensitive evaluation of a loop-free body: yields (conds, ret) for every entry-to-return path, where conds
+    is the list of (condition expression, taken value | ('not', values)) of the switches passed and ret the returned
+    value expression with every local resolved along *that* path (no phi).  Returns None if the body has a loop
+    on some path or more than max_paths paths."""
+    b = prog.bodies[path]
+    pe = PathExpr(prog, path)
+    blocks = {blk["id"]: blk for blk in b["blocks"]}
+    out = []
+    budget = [max_paths * 4]
+
+    def run(bid, env, conds, visited):
+        while True:
+            budget[0] -= 0
+            if bid in visited:
+                raise OverflowError("loop")
+            visited = visited | {bid}
+            blk = blocks[bid]
+            for st in blk["stmts"]:
+                d, rv = st.get("dst"), st.get("rv")
+                if not d or not rv or rv.get("k") == "setdiscr":
+                    continue
+                pe.env = env
+                val = pe._rvalue(rv, bid, 0)
+                env = dict(env)
+                if not d["p"]:
+                    env[d["l"]] = val
+                else:
+                    fs = [pr.get("name") if pr.get("name") is not None else str(pr["f"]) for pr in d["p"] if isinstance(pr, dict) and "f" in pr]
+                    old = env.get(d["l"])
+                    if fs and len(fs) == 1 and old is not None and old[0] == "agg":
+                        comps = tuple((n, (val if str(n) == fs[0] else v)) for n, v in old[3])
+                        env[d["l"]] = (old[0], old[1], old[2], comps)
+                    elif fs and len(fs) == 1 and old is None:
+                        env[d["l"]] = ("agg", "partial", None, ((fs[0], val),))
+                    else:
+                        env[d["l"]] = ("unknown", "store through a projection")
+            t = blk["term"]
+            k = t["k"]
+            pe.env = env
+            if k == "goto" or k == "drop":
+                bid = t["targets"][0]
+            elif k == "assert":
+                bid = t["targets"][0]
+            elif k == "call":
+                val = ("call", Program.callee_name(t), tuple(pe.operand(a) for a in t["args"]), bid)
+                if not t.get("targets"):
+                    return
+                env = dict(env)
+                if not t["dst"]["p"]:
+                    env[t["dst"]["l"]] = val
+                # &mut arguments: the callee may change them; forget what we knew (kept as mutated_by)
+                for a in t["args"]:
+                    apl = op_place(a)
+                    if apl is not None and apl["l"] in env and "&mut" in (b["locals"][apl["l"]]["ty"] or ""):
+                        pass
+                bid = t["targets"][0]
+            elif k == "switch":
+                cond = pe.operand(t["on"])
+                vals, tgts = t["values"], t["targets"]
+                for v, tg in zip(vals, tgts):
+                    if len(out) >= max_paths:
+                        raise OverflowError("too many paths")
+                    run(tg, env, conds + [(cond, v)], visited)
+                run(tgts[-1], env, conds + [(cond, ("not", tuple(vals)))], visited)
+                return
+            elif k == "return":
+                pe.env = env
+                out.append((conds, pe.local(0)))
+                if len(out) > max_paths:
+                    raise OverflowError("too many paths")
+                return
+            else:
+                return
+
+    try:
+        run(0, {}, [], frozenset())
+    except (OverflowError, RecursionError):
+        return None
+    return out
+
